@@ -28,7 +28,7 @@ ASSUMPTIONS = [
     "implicit rules, no filter ACL; storage stub only provides flush_perf()",
     "two generators sharing a parent block must both mark it cant_delete, otherwise the shared parent itself is a conflict",
 ]
-BUDGET = {"quick": 150, "thorough": 1500}
+BUDGET = {"quick": 240, "thorough": 1500}
 PREFIX = "undo"
 
 ROWS = ["a", "b x", "c", "d 1"]     # block heads add: "d 0" (numeric zero token)
@@ -37,12 +37,15 @@ ROWS = ["a", "b x", "c", "d 1"]     # block heads add: "d 0" (numeric zero token
 # ---- programs --------------------------------------------------------------------------------------
 def programs(max_nodes, max_depth):
     """all ASTs (lists of nodes) with <= max_nodes nodes; node kinds:
-       ("y", row) ("yt", [words]) ("ytext", [rows]) ("block", [tokens], body) ("block_if", [tokens|None], body)
+       ("y", row) ("yt", [words]) ("ytext", [rows]) ("block", [tokens], body) ("block0"/"block4": block(indent=""/4 blanks)) ("block_if", [tokens|None], body)
        ("multi", [[tokens],[tokens]], body)"""
     leaves = [("y", r) for r in ROWS] + [("yt", ["b", "x"]), ("yt", ["d", 1]), ("ytext", ["a", "c"])]
     heads = [("block", ["a"]), ("block", ["b", "x"]), ("block_if", ["a"]), ("block_if", [None]), ("block_if", ["d", ""]),
              ("block_if", ["d", 0]),
-             ("multi", [["a"], ["b", "x"]]), ("multi", [])]
+             ("multi", [["a"], ["b", "x"]]), ("multi", []),
+             # block(..., indent=...): a zero-width block (its rows stand beside its header, what follows it is still inside
+             # the enclosing block) and a block indented by four blanks
+             ("block0", ["a"]), ("block4", ["b", "x"])]
     memo = {}
 
     def gen(n, depth):
@@ -84,10 +87,13 @@ def interpret(prog, path=()):
         elif k == "ytext":
             for r in node[1]:
                 out.append(path + (r,))
-        elif k == "block":
+        elif k in ("block", "block4"):
             row = " ".join(str(t) for t in node[1])
             out.append(path + (row,))
             out.extend(interpret(node[2], path + (row,)))
+        elif k == "block0":
+            out.append(path + (" ".join(str(t) for t in node[1]),))
+            out.extend(interpret(node[2], path))
         elif k == "block_if":
             toks = node[1]
             if None in toks or "" in toks:
@@ -120,7 +126,7 @@ def tree_of(paths):
 
 
 def has_block(prog):
-    return any(n[0] in ("block", "block_if", "multi") for n in prog)
+    return any(n[0] in ("block", "block_if", "multi", "block0", "block4") for n in prog)
 
 
 # ---- ACLs ------------------------------------------------------------------------------------------
@@ -187,6 +193,9 @@ def make_gen(idx, prog, acl_text):
                 yield "\n".join(node[1])
             elif k == "block":
                 with self.block(*node[1]):
+                    yield from run_nodes(self, node[2])
+            elif k in ("block0", "block4"):
+                with self.block(*node[1], indent="" if k == "block0" else "    "):
                     yield from run_nodes(self, node[2])
             elif k == "block_if":
                 with self.block_if(*node[1]):
